@@ -132,8 +132,9 @@ func (m *Mutex) TryLock() bool {
 	return true
 }
 
-// RWMutex is a simulated sync.RWMutex (readers are admitted whenever no writer
-// holds the lock; writer preference of the real implementation is not modelled).
+// RWMutex is a simulated sync.RWMutex, writer preference included: a reader
+// arriving after a writer has called Lock waits until that writer is done (so a
+// re-entrant RLock with a writer queued in between deadlocks, as it really does).
 type RWMutex struct {
 	mu      sync.RWMutex
 	i       ident
